@@ -268,6 +268,18 @@ theorem C16_resource_manager (pre : Nat) (pcs : List MPc) (h : ∀ p ∈ pcs, p 
     (s : Schedule) : holdsM2 (rmObs (mFinal pre pcs s)) = true :=
   holdsM2_final pre pcs h s
 
+/-- **`DisposeWithTimeout`, every schedule** — the deadline fires before or after the disposal, the
+slow resource's `Dispose` is unblocked at any moment: when everything has run, the resource was
+disposed exactly once and the helper goroutine that ran `DisposeAll` is gone (its result goes into
+a 1-slot buffered channel, so nobody has to be there to receive it). -/
+theorem C16_dispose_with_timeout (s : Schedule) : holdsH (hObs (hFinal true s)) = true :=
+  holdsH_final s
+
+/-- The rejected unbuffered result channel: the deadline wins, the caller is gone, the resource is
+unblocked, the helper disposes it and then waits forever for a receiver. -/
+theorem C16_dispose_with_timeout_unbuffered_witness :
+    holdsH (hObs (hFinal false [1, 2, 0, 3, 3])) = false := by decide
+
 /-! ## Known finding: two bridges of one mapping -/
 
 /-- KNOWN FINDING (`K:crossbridge-lost-update`): the read-modify-write of the mapping's statistics
@@ -428,6 +440,9 @@ example : rmObs (mFinal 2 [.d1, .reg, .d1, .reg] [0, 1, 2, 0, 3, 0, 2]) = ⟨4, 
 example : ((rRounds .repaired rInit [⟨100, 7, 2, [0, 0, 0, 1], [0], []⟩, mkRound 1 1 1 []]).map rObs)
     = [⟨100, 7, 1, 100, 7⟩, ⟨101, 8, 2, 101, 8⟩] := by decide
 example : (run (kProg false) [0, 1, 2] (kInit [.close, .write, .read])).sh = ⟨true, true, 1, 0⟩ := by decide
+example : hObs (hFinal true [1, 2, 0, 3, 3]) = ⟨true, 1, 0⟩ := by decide
+example : hObs (hFinal true [0, 3, 3, 2]) = ⟨false, 1, 0⟩ := by decide
+example : hObs (hFinal false [1, 2, 0, 3, 3]) = ⟨true, 1, 1⟩ := by decide
 example : (bFinal 3 [0, 1, 2, 2, 1, 0]).sh.sc = 2 ∧ (bFinal 3 [0, 1, 2, 2, 1, 0]).sh.cleanups = 1 := by decide
 
 end Tunnox.C16
